@@ -200,6 +200,14 @@ class Sym:
         with NoTracing():
             return realize(v)
 
+    def constrain_any(self, conds):
+        """add the DISJUNCTION of comparisons on symbolic values to the path condition without forking"""
+        with NoTracing():
+            space = context_statespace()
+            space.add(z3.Or(*[self._z3(c) for c in conds]))
+            if space.solver.check() != z3.sat:
+                raise IgnoreAttempt
+
     def constrain(self, *conds):
         """add the conjunction of comparisons on symbolic values to the path condition WITHOUT forking
         (an assumption on the inputs, stated in the module's ASSUMPTIONS/BOUNDS)"""
